@@ -398,6 +398,7 @@ Upd(s0, e) ==
                                      !.lp = IF e.o # "ok" /\ s.lp[e.k] = e.p THEN [s.lp EXCEPT ![e.k] = "none"] ELSE s.lp]
     [] e.ev = "snap" -> DoSnap(s, e)
     [] e.ev = "ticklocked" -> DoTickLocked(s, e)
+    [] e.ev = "badaccess" -> V(s, "C08", "read_event_applied_to_entry_recycled_for_another_key")
     [] e.ev = "hang" -> DoHang(s, e)
     [] e.ev = "end" -> DoEnd(s, e)
     [] e.ev = "census" -> Vif(Vif(s, e.after > e.before, "C10", "background_goroutine_alive_after_close"),
